@@ -129,7 +129,7 @@ Definition masked_arithmetic : list string :=
     mask = self.mask & other.mask
 else:
     tensor = getattr(self.tensor, action)(other)
-    mask = self.mask";
+    mask = self.mask.expand(tensor.shape)";
     "return MaskedTensor(tensor=tensor, mask=mask)" ].
 
 Definition masked_add : list string :=
@@ -159,7 +159,7 @@ Definition masked_fix_nan : list string :=
 
 Definition masked_div : list string :=
   [ "tensor = torch.div(self.tensor, other.tensor, out=self.tensor if in_place else None)";
-    "mask = self.mask & other.mask if update_mask else self.mask";
+    "mask = self.mask & other.mask if update_mask else self.mask.expand(tensor.shape)";
     "return MaskedTensor(tensor, mask)" ].
 
 Definition masked_getitem : list string :=
